@@ -41,8 +41,43 @@ def render_filter(f):
 DEC_NAME = {"event": "event_trigger", "mqtt": "mqtt_trigger", "webhook": "webhook_trigger"}
 
 
+PVMOD = """pv_n = [0]
+
+
+def next_rid():
+    pv_n[0] = pv_n[0] + 1
+    return pv_n[0]
+"""
+
+
+def render_set(fn_name, ai, act):
+    """one state change of the run: function forms on a per-run entity, statement forms on a per-function entity
+    (statement groups are created, used and removed without suspending in between, so runs cannot collide on them)"""
+    step = act.get("step")
+    if step is None:  # round-1 form
+        return f"state.set('pyscript.pv_' + str(rid) + '_{ai}', 'v{ai}')"
+    base = act["base"]
+    if act.get("form", "func") == "stmt":
+        name = f"pyscript.pvs_{fn_name}_{base}"
+        return {"create": f"{name} = rid", "setattr": f"{name}.a1 = {ai}", "delattr": f"del {name}.a1", "delete": f"del {name}"}[step]
+    ent = f"'pyscript.pv_' + str(rid) + '_{base}'"
+    return {"create": f"state.set({ent}, str(rid))", "setattr": f"state.setattr({ent} + '.a1', {ai})",
+            "delattr": f"state.delete({ent} + '.a1')", "delete": f"state.delete({ent})"}[step]
+
+
+def render_files(case):
+    """-> {relative path: source}; functions go to the file named by their "file" entry (default hello.py)"""
+    files = {}
+    for fn in case["funcs"]:
+        files.setdefault(fn.get("file", "hello"), []).append(fn)
+    out = {"modules/pvmod.py": PVMOD}
+    for fname, fns in files.items():
+        out[fname + ".py"] = render_script({"funcs": fns})
+    return out
+
+
 def render_script(case):
-    lines = ["pv_n = 0", ""]
+    lines = ["from pvmod import next_rid", ""]
     for fn in case["funcs"]:
         for dec in fn["decs"]:
             args = [repr(dec["key"])]
@@ -53,9 +88,7 @@ def render_script(case):
             lines.append(f"@{DEC_NAME[dec['kind']]}({', '.join(args)})")
         name = fn["name"]
         lines.append(f"def {name}(**kw):")
-        lines.append("    global pv_n")
-        lines.append("    pv_n += 1")
-        lines.append("    rid = pv_n")
+        lines.append("    rid = next_rid()")
         lines.append(f"    event.fire('pv_run', fn={name!r}, rid=rid, kw=kw)")
         for ai, act in enumerate(fn["acts"]):
             op = act["op"]
@@ -70,7 +103,7 @@ def render_script(case):
                     parts.append(f"context={ctx['val']!r}")
                 lines.append(f"    event.fire({act['type']!r}, {', '.join(parts)})")
             elif op == "set":
-                lines.append(f"    state.set('pyscript.pv_' + str(rid) + '_{ai}', 'v{ai}')")
+                lines.append("    " + render_set(name, ai, act))
             elif op == "call":
                 # natively registered test services of the three response kinds, both call forms
                 svc = "svc_" + act.get("svc", "none")
@@ -159,7 +192,10 @@ async def run_case(case):
     reg_attempts = []  # webhook registration attempts: {"fn":, "key":, "ok":}
     driver_firing = [None]
     pending_calls = {}
+    epoch = [0]  # incremented by every reload step
+    set_seen = {}  # (entity, rid) -> number of state changes seen
     real_register = webhook_mod.async_register
+    real_unregister = webhook_mod.async_unregister
 
     async def fake_subscribe(hass, topic, msg_callback, qos=0, encoding="utf-8", **_kw):
         entry = (topic, msg_callback)
@@ -175,7 +211,7 @@ async def run_case(case):
         owner = getattr(handler, "__self__", None)
         dm = getattr(owner, "dm", None)
         fn = getattr(dm, "func_name", None)
-        att = {"fn": fn, "key": webhook_id, "ok": True}
+        att = {"op": "reg", "fn": fn, "key": webhook_id, "ok": True, "ep": epoch[0]}
         reg_attempts.append(att)
         try:
             return real_register(hass, domain, name, webhook_id, handler, **kw)
@@ -183,9 +219,13 @@ async def run_case(case):
             att["ok"] = False
             raise
 
-    src = render_script(case)
-    with patch.object(mqtt_mod, "async_subscribe", fake_subscribe), patch.object(webhook_mod, "async_register", rec_register):
-        async with PyscriptEnv(files={"hello.py": src}, legacy=case["legacy"]) as env:
+    def rec_unregister(hass, webhook_id):
+        reg_attempts.append({"op": "unreg", "key": webhook_id, "ep": epoch[0]})
+        return real_unregister(hass, webhook_id)
+
+    with patch.object(mqtt_mod, "async_subscribe", fake_subscribe), patch.object(webhook_mod, "async_register", rec_register), \
+            patch.object(webhook_mod, "async_unregister", rec_unregister):
+        async with PyscriptEnv(files=render_files(case), legacy=case["legacy"]) as env:
             hass = env.hass
 
             def cpair(ctx):
@@ -199,7 +239,8 @@ async def run_case(case):
                 if et == "pyscript_running":
                     name = ev.data.get("name", "")
                     c, p = cpair(ev.context)
-                    trace.append({"o": "running", "fn": name[len(FILE_CTX):] if name.startswith(FILE_CTX) else name,
+                    parts = name.split("_", 2)  # file_<file>_<function>
+                    trace.append({"o": "running", "fn": parts[2] if len(parts) == 3 and parts[0] == "file" else name,
                                   "kw": canon.kw(ev.data.get("func_args", {})), "ctx": c, "par": p})
                 elif et == "pv_run":
                     c, p = cpair(ev.context)
@@ -207,10 +248,23 @@ async def run_case(case):
                                   "kw": canon.kw(ev.data.get("kw", {})), "ctx": c, "par": p})
                 elif et == "state_changed":
                     eid = ev.data.get("entity_id", "")
-                    if eid.startswith("pyscript.pv_"):
-                        rid, ai = eid[len("pyscript.pv_"):].split("_")
+                    # the k-th change of an entity by a run is its scripted action base + k
+                    st = ev.data.get("new_state") or ev.data.get("old_state")
+                    rid = base = None
+                    try:
+                        if eid.startswith("pyscript.pv_"):
+                            rid, base = (int(x) for x in eid[len("pyscript.pv_"):].split("_"))
+                        elif eid.startswith("pyscript.pvs_"):
+                            base = int(eid.rsplit("_", 1)[1])
+                            rid = int(st.state)
+                    except (ValueError, AttributeError):
+                        rid = base = None
+                    if base is not None:
+                        k = set_seen.get((eid, rid), 0)
+                        set_seen[(eid, rid)] = k + 1
                         c, p = cpair(ev.context)
-                        trace.append({"o": "set", "rid": int(rid), "ai": int(ai), "ctx": c, "par": p})
+                        trace.append({"o": "set", "rid": rid, "ai": base + k, "ctx": c, "par": p,
+                                      "removed": ev.data.get("new_state") is None})
                 elif et == "call_service":
                     # position in the trace = when the call was made; the context recorded is the one the SERVICE sees
                     # (ServiceCall.context, filled in by the handler below; None if the service was never invoked)
@@ -224,7 +278,8 @@ async def run_case(case):
                 elif et.startswith("pv_"):
                     d = dict(ev.data)
                     c, p = cpair(ev.context)
-                    trace.append({"o": "fire", "rid": d.get("rid"), "ai": d.get("ai"), "type": et, "data": canon.kw(d), "ctx": c, "par": p})
+                    trace.append({"o": "fire", "rid": d.get("rid"), "ai": d.get("ai"), "type": et, "data": canon.kw(d), "ctx": c, "par": p,
+                                  "ep": epoch[0]})
 
             hass.bus.async_listen(MATCH_ALL, rec)
 
@@ -252,9 +307,15 @@ async def run_case(case):
                 if ent.get("settle"):
                     await env.settle()
                 kind = ent["kind"]
-                if kind == "event":
+                if kind == "reload":
+                    # a partial reload: the triggers of that file stop and start again, everything else keeps running
+                    await env.settle()
+                    epoch[0] += 1
+                    await hass.services.async_call("pyscript", "reload", {"global_ctx": "file." + ent["file"]}, blocking=True)
+                    await env.settle()
+                elif kind == "event":
                     ctx = Context()
-                    trace.append({"o": "bus", "i": i, "key": ent["key"], "ctx": canon.cid(ctx.id)})
+                    trace.append({"o": "bus", "i": i, "key": ent["key"], "ctx": canon.cid(ctx.id), "ep": epoch[0]})
                     driver_firing[0] = ctx
                     try:
                         hass.bus.async_fire(ent["key"], dict(ent["data"]), context=ctx)
@@ -266,7 +327,7 @@ async def run_case(case):
                         if pattern in seen or not topic_matches(pattern, ent["topic"]):
                             continue
                         seen.append(pattern)
-                        trace.append({"o": "bus", "i": i, "key": pattern, "ctx": None})
+                        trace.append({"o": "bus", "i": i, "key": pattern, "ctx": None, "ep": epoch[0]})
                         for pat2, cb in list(subs):
                             if pat2 != pattern:
                                 continue
@@ -276,7 +337,7 @@ async def run_case(case):
                                 await res
                 elif kind == "webhook":
                     handlers = hass.data.get("webhook", {})
-                    trace.append({"o": "bus", "i": i, "key": ent["key"], "ctx": None})
+                    trace.append({"o": "bus", "i": i, "key": ent["key"], "ctx": None, "ep": epoch[0]})
                     if ent["key"] in handlers:
                         req = FakeRequest(js=ent.get("json"), form=ent.get("form"))
                         await handlers[ent["key"]]["handler"](hass, ent["key"], req)
